@@ -273,7 +273,16 @@ func c15Case(c *core.C) {
 	if depths[3] < 3 {
 		depths[3] = 3
 	}
-	c15Check(c, g, s, depths, r, 3)
+	if c15Check(c, g, s, depths, r, 3) && c.K%3 == 0 && len(g.Nodes) > 1 {
+		// the same list value is extended in place and queried again: the answers must describe the list as it is now
+		g.Edges = append(g.Edges, &sbom.Edge{From: gen.Pick(r, ids), Type: gen.Pick(r, c09Types), To: []string{gen.Pick(r, ids), gen.Pick(r, ids)}})
+		if len(g.Edges) > 1 && r.Intn(2) == 0 {
+			e := g.Edges[r.Intn(len(g.Edges)-1)]
+			e.To = append(e.To, gen.Pick(r, ids))
+		}
+		c.Cover("extraction-again-after-in-place-change")
+		c15Check(c, g, s, depths, r, 2)
+	}
 	if c.WantSample() && len(g.Edges) > 3 {
 		c.Sample(map[string]any{"kind": "random", "graph": gen.Canon(g), "start": s, "depths": depths})
 	}
